@@ -3,6 +3,7 @@
 # stored encodings.  save_recording(r): Saved' = Saved[r.id := snap(r)] (other ids untouched); get_recording(id): a FRESH recording with the
 # same id, key set, CP-copies under every key and equal metadata, or NoSuchRecording.
 import ast
+import os
 import z3
 
 from pyvc.vals import Val, NONE, S, B, I, K, LAT, TYP, sub, SeqV, Str, AVV, AVB, BASE, fresh, truthy, St, Unsupported, is_exc
@@ -14,7 +15,7 @@ from pyvc import lib
 from specs import a1
 from specs.a1 import CP, E_KIND, E_ID, E_DDOM, E_DMAP, E_MDOM, E_MMAP
 
-REPO_ROOT = '/repo'
+REPO_ROOT = os.environ.get('PYVC_REPO', '/repo')
 IM = 'playback.tape_cassettes.in_memory.in_memory_tape_cassette:InMemoryTapeCassette.'
 MR = 'playback.recordings.memory.memory_recording:MemoryRecording.'
 RC = 'playback.recording:Recording.'
@@ -45,7 +46,7 @@ class CasSpec(object):
 
 
 def mk(qual=None):
-    repo = Repo(REPO_ROOT); spec = CasSpec(); ex = lib.install(Exec(repo, spec)); spec.install(ex)
+    repo = Repo(); spec = CasSpec(); ex = lib.install(Exec(repo, spec)); spec.install(ex)
     return repo, spec, ex
 
 
@@ -305,7 +306,7 @@ class IterSpec(CasSpec):
 
 
 def in_memory_iter(props=None):
-    repo = Repo(REPO_ROOT); spec = IterSpec(); ex = lib.install(Exec(repo, spec)); spec.install(ex)
+    repo = Repo(); spec = IterSpec(); ex = lib.install(Exec(repo, spec)); spec.install(ex)
     m, cls, node, info = repo.find(IM + 'iter_recording_ids')
     st = St(); selfv = st.sym_obj('self', 'InMemoryTapeCassette'); store = st.sym_obj('store', 'OrderedDict'); st.wr(selfv, '_recordings', store)
     for f_, kd_ in learn_fields(repo, 'InMemoryTapeCassette').items():
@@ -450,7 +451,7 @@ PATHF = z3.Function('recording_file_path', Str, Str, Str); JOINF = z3.Function('
 
 
 def file_state(qual, params):
-    repo = Repo(REPO_ROOT); spec = FileCasSpec(); ex = lib.install(Exec(repo, spec)); spec.install(ex)
+    repo = Repo(); spec = FileCasSpec(); ex = lib.install(Exec(repo, spec)); spec.install(ex)
     m, cls, node, info = repo.find(qual)
     st = St(); st.g['fs_dom'] = z3.Array('FSDOM', Str, z3.BoolSort()); st.g['fs_text'] = z3.Array('FSTEXT', Str, Str)
     selfv = st.sym_obj('self', 'FileBasedTapeCassette'); d = fresh('directory', Str); st.wr(selfv, 'directory', Val.s(d))
@@ -578,7 +579,7 @@ def lemmas(props=None):
 def pickle_copy_unit(props=None):
     """playback.utils.pickle_copy.pickle_copy(value) is decode(encode(value)) for EVERY value: by A1 the structural copy CP(value) -- a new
     object for every object (tuples and frozensets included), the value itself only for immutable scalars"""
-    repo = Repo(REPO_ROOT); ex = lib.install(Exec(repo, None)); a1.install(ex)
+    repo = Repo(); ex = lib.install(Exec(repo, None)); a1.install(ex)
     m, cls, node, info = repo.find('playback.utils.pickle_copy:pickle_copy')
     st = St(); v = fresh('value'); st.assume(z3.Not(Val.is_cls(v))); st.assume(z3.Implies(Val.is_ref(v), z3.And(Val.addr(v) < BASE, Val.addr(v) >= 0)))
     # the value is not itself a recording / plain dict handled by the structured part of the A1 model: any other object or scalar
